@@ -26,6 +26,7 @@ import (
 
 	"verif/core"
 	"verif/gjs"
+	"verif/props/witness"
 	"verif/reg"
 	"verif/tlcx"
 )
@@ -476,6 +477,8 @@ func Run(c *core.Ctx, pool *gjs.Pool) {
 			i++
 		}
 	}
+	witness.Run(c, pool, witnesses)
+	c.Phase("witnesses")
 }
 
 // replay re-decides one recorded scenario: the program in <dir>/prog must print
